@@ -491,3 +491,216 @@ def vec_macro_elements(body, o, t):
                 return None
             out = [o.of_operand(x) for x in d[3]["rv"]["ops"]]
     return out
+
+
+# ---------------------------------------------------------------------------
+# format! templates
+
+
+def parse_bytes_literal(v):
+    """b"..." display form -> bytes"""
+    if v is None or not v.startswith('b"') or not v.endswith('"'):
+        return None
+    s = v[2:-1]
+    out = bytearray()
+    i = 0
+    while i < len(s):
+        c = s[i]
+        if c == "\\":
+            n = s[i + 1]
+            if n == "x":
+                out.append(int(s[i + 2:i + 4], 16))
+                i += 4
+            elif n == "n":
+                out.append(10); i += 2
+            elif n == "t":
+                out.append(9); i += 2
+            elif n == "r":
+                out.append(13); i += 2
+            elif n == "0":
+                out.append(0); i += 2
+            elif n in "\\\"'":
+                out.append(ord(n)); i += 2
+            else:
+                return None
+        else:
+            out.extend(c.encode())
+            i += 1
+    return bytes(out)
+
+
+def decode_format_template(v):
+    """Arguments::new template -> list of pieces: str literals and None for a default-format argument.
+    Returns None if the template uses anything else (fail closed)."""
+    b = parse_bytes_literal(v)
+    if b is None:
+        return None
+    out = []
+    i = 0
+    while i < len(b):
+        x = b[i]
+        if x == 0:
+            return out if i == len(b) - 1 else None
+        if x == 0xC0:
+            out.append(None)
+            i += 1
+        elif x < 0x80:
+            out.append(b[i + 1:i + 1 + x].decode("utf-8", "replace"))
+            i += 1 + x
+        else:
+            return None
+    return None
+
+
+def format_term(body, o, t):
+    """If term t is the String produced by format!(..): list of pieces (str | argument term)."""
+    s = strip_identity(t, extra=("hint::must_use", "alloc::fmt::format", "string::String::as_str", "ToString::to_string"))
+    if s[0] == "call" and name_matches(s[1], "fmt::Arguments::from_str"):
+        c = const_of(s[2][0])
+        return [c.strip('"')] if c else None
+    if not (s[0] == "call" and name_matches(s[1], "fmt::Arguments::new")):
+        return None
+    tpl = decode_format_template(const_of(s[2][0]))
+    if tpl is None:
+        return None
+    arr = strip_identity(s[2][1])
+    if not (arr[0] == "agg" and arr[1] == "array"):
+        return None
+    args = []
+    for a in arr[3]:
+        a = strip_identity(a)
+        if a[0] == "call" and name_matches(a[1], ("fmt::rt::Argument::new_display", "fmt::rt::Argument::new_debug")):
+            args.append((a[1].split("::")[-1], a[2][0]))
+        else:
+            return None
+    out = []
+    k = 0
+    for p in tpl:
+        if p is None:
+            if k >= len(args):
+                return None
+            out.append(args[k])
+            k += 1
+        else:
+            out.append(p)
+    return out
+
+
+# ---------------------------------------------------------------------------
+# R-PANIC
+
+
+PANIC_CALLS = (
+    "option::Option::unwrap", "option::Option::expect", "result::Result::unwrap", "result::Result::expect",
+    "result::Result::unwrap_err", "result::Result::expect_err", "option::Option::unwrap_unchecked",
+    "re:^core::panicking::", "re:^std::panicking::", "std::rt::begin_panic", "std::rt::panic_fmt", "panic::resume_unwind", "panic::panic_any",
+    "ops::index::Index::index", "ops::index::IndexMut::index_mut",
+    "slice::copy_from_slice", "slice::clone_from_slice", "slice::split_at", "slice::split_at_mut",
+    "vec::Vec::remove", "vec::Vec::swap_remove", "vec::Vec::insert", "vec::Vec::drain", "vec::Vec::split_off",
+    "cell::RefCell::borrow", "cell::RefCell::borrow_mut", "string::String::remove", "str::split_at",
+    "re:^tokio::runtime::handle::Handle::current", "tokio::task::spawn::spawn", "tokio::task::blocking::spawn_blocking",
+    "tokio::time::interval::interval", "tokio::time::interval::interval_at",
+    "sync::mutex::Mutex::lock", "sync::rwlock::RwLock::read", "sync::rwlock::RwLock::write",
+)
+ARITH_TRAITS = ("ops::arith::Add::add", "ops::arith::Sub::sub", "ops::arith::Mul::mul", "ops::arith::Div::div", "ops::arith::Rem::rem",
+                "ops::arith::AddAssign::add_assign", "ops::arith::SubAssign::sub_assign", "ops::arith::MulAssign::mul_assign",
+                "time::Duration::mul_f64", "time::Duration::mul_f32", "time::Duration::from_secs_f64", "time::Duration::from_secs_f32",
+                "time::Duration::div_f64")
+# locks are inventory items only when poisoning is unwrapped; the lock call itself does not panic
+NON_PANICKING_LOCKS = ("sync::mutex::Mutex::lock", "sync::rwlock::RwLock::read", "sync::rwlock::RwLock::write")
+
+
+def panic_sites(prog, entries, stop=(), extra_edges=None, crates=None):
+    """All panic-capable constructs in workspace bodies reachable from `entries`.
+    Returns (reach, sites) with sites = list of dict(body, bb, kind, what, key)."""
+    reach = prog.reachable_bodies(entries, extra_edges=extra_edges, stop=stop)
+    sites = []
+    for p in sorted(reach):
+        b = prog.body(p)
+        if b is None or (crates and b.crate not in crates):
+            continue
+        counts = {}
+        for i, bl in enumerate(b.blocks):
+            if bl.get("cleanup"):
+                continue
+            t = bl["t"]
+            what = None
+            if t["k"] == "assert":
+                m = t["msg"]
+                what = "assert:" + m.split("{")[0].split("(")[0].strip()
+            elif t["k"] == "call":
+                c = b.call_at(i)
+                if c.fn and name_matches(c.fn, NON_PANICKING_LOCKS):
+                    what = None
+                elif c.fn and name_matches(c.fn, PANIC_CALLS):
+                    what = "call:" + "::".join(c.fn.split("::")[-2:])
+                elif c.fn and name_matches(c.fn, ARITH_TRAITS) and not is_tracing(c):
+                    what = "arith:" + "::".join(c.fn.split("::")[-2:]) + "<" + (c.self_ty or (c.ga[0] if c.ga else "?")).split("::")[-1] + ">"
+            if what is None:
+                continue
+            if in_ignored_expansion(b, i) and what.startswith("call:fmt"):
+                continue
+            n = counts.get(what, 0)
+            counts[what] = n + 1
+            sites.append({"body": p, "bb": i, "what": what, "ord": n, "key": f"{p}/{what}#{n}", "exp": t.get("exp"), "via": reach.get(p)})
+    return reach, sites
+
+
+def check_panic_inventory(ob, prog, entries, allow, stop=(), extra_edges=None, key_prefix="panic"):
+    """Every panic-capable site reachable from `entries` must be in `allow` (key -> justification, or
+    (justification, checker(site, body) -> bool))."""
+    for e in entries:
+        if prog.body(e) is None:
+            raise AnchorLost(f"panic-inventory entry point {e} not found")
+    reach, sites = panic_sites(prog, entries, stop=stop, extra_edges=extra_edges)
+    ob.count(len(reach))
+    used = set()
+    for s in sites:
+        k = s["key"]
+        a = allow.get(k)
+        if a is None:
+            # wildcard per body: key "<body>/*"
+            a = allow.get(s["body"] + "/*")
+            if a is not None:
+                used.add(s["body"] + "/*")
+        else:
+            used.add(k)
+        if a is None:
+            b = prog.body(s["body"])
+            ob.fail("refuted", f"{key_prefix}/unlisted/{k}",
+                    f"panic-capable construct `{s['what']}` in {s['body']} is reachable from the entry points (via {s['via']}) and has no justification in the inventory",
+                    s["body"], b.loc(s["bb"]))
+            continue
+        ob.evals += 1
+        if isinstance(a, tuple):
+            just, chk = a
+            b = prog.body(s["body"])
+            if chk(s, b):
+                ob.matched += 1
+            else:
+                ob.fail("refuted", f"{key_prefix}/justification-failed/{k}", f"justification `{just}` for `{s['what']}` in {s['body']} does not hold any more", s["body"], b.loc(s["bb"]))
+        else:
+            ob.matched += 1
+    return reach, sites, used
+
+
+def drop_edges(prog):
+    """extra call-graph edges: Drop terminators on types with a workspace Drop impl."""
+    drops = {}
+    for im in prog.impls:
+        if im["trait"] == "core::ops::drop::Drop":
+            ty = im["self_ty"].split("<")[0]
+            for it in im["items"]:
+                drops.setdefault(ty, []).append(strip_generics(it))
+
+    def edges(b):
+        out = set()
+        for bl in b.blocks:
+            t = bl["t"]
+            if t["k"] == "drop":
+                ty = b.local_ty(place_local(t["pl"]))
+                for k, v in drops.items():
+                    if k in ty:
+                        out.update(v)
+        return out
+    return edges
